@@ -302,8 +302,12 @@ func runCheck(o *Options, writeEvidence bool) int {
 		qk += w.qUnknown
 		qw += w.qWall
 	}
-	fmt.Printf("property=%s tier=%s harnesses=%d paths=%d queries=%d (sat %d, unsat %d, unknown %d) solver=%.1fs wall=%.1fs (load %.1fs) exit=%d\n",
-		o.prop, o.tier, len(hs), tp, q, qs, qu, qk, qw.Seconds(), wall.Seconds(), (prog.loadTime + prog.buildTime).Seconds(), exit)
+	hits := 0
+	for _, w := range workers {
+		hits += w.cacheHits
+	}
+	fmt.Printf("property=%s tier=%s harnesses=%d paths=%d queries=%d (sat %d, unsat %d, unknown %d, model-cache hits %d) solver=%.1fs wall=%.1fs (load %.1fs) exit=%d\n",
+		o.prop, o.tier, len(hs), tp, q, qs, qu, qk, hits, qw.Seconds(), wall.Seconds(), (prog.loadTime + prog.buildTime).Seconds(), exit)
 	return exit
 }
 
